@@ -91,6 +91,7 @@ int String :: LastIndexOfIgnoreCase(char ch, uint32 f) const
    if (lowerChar == upperChar) return LastIndexOf(ch, f);
    else
    {
+      if (f >= Length()) return -1;  // also keeps (f) within the range of the int32 loop-counter below
       const char * p = Cstr();
       for (int32 i=((int32)Length())-1; i>=(int32)f; i--) if ((p[i] == lowerChar)||(p[i] == upperChar)) return i;
       return -1;
